@@ -206,7 +206,7 @@ func c03AimProbe(r *vfRand, srv string, strict bool, rid uint64, ls ...c03Lists)
 	if r.Chance(1, 4) {
 		name = vfMixCase(r, vfPick(r, c03DefaultHostNames))
 	}
-	req := createTestMessageWithType(name+".", vfPick(r, vfQTypes))
+	req := c03VaryQuestion(r, createTestMessageWithType(name+".", vfPick(r, vfQTypes)))
 	addr := c03AimAddr(r, ls...)
 	var ids []string
 	for _, l := range ls {
